@@ -27,7 +27,22 @@ type bridgeRig struct {
 var chunkA = make([]byte, 1000)
 var chunkB = make([]byte, 700)
 
-func newBridgeRig(free bool, seed int64) *bridgeRig {
+func newBridgeRig(free bool, seed int64) *bridgeRig { return newBridgeRigT(free, seed, true) }
+
+// tc makes the tunnel connection object `id` ("s" source, "t" target, "t2" a target arriving later) over
+// an in-memory connection. Its Close can be held (gate "tc.close") and is counted per object.
+func (r *bridgeRig) tc(id string, c *memConn) *tconn {
+	return &tconn{id: id, conn: c, onClose: func(t *tconn) {
+		r.s.Gate("tc.close", map[string]any{"id": t.id})
+		r.rec.add(fw.Event{"ev": "Ran", "h": "close:" + t.id})
+		r.s.After()
+	}}
+}
+
+// own: the bridge has been handed connection id; it owes it one Close.
+func (r *bridgeRig) own(id string) { r.rec.add(fw.Event{"ev": "Own", "h": "close:" + id}) }
+
+func newBridgeRigT(free bool, seed int64, withTarget bool) *bridgeRig {
 	r := &bridgeRig{base: newBase(free, seed)}
 	r.cloud = &cloud{s: r.s, rec: r.rec, seen: map[int64]int64{}}
 	r.src, r.dst = newMemConn("src"), newMemConn("dst")
@@ -46,10 +61,14 @@ func newBridgeRig(free bool, seed int64) *bridgeRig {
 	}
 	r.b = stunnel.NewBridge(r.ctx, &stunnel.BridgeConfig{
 		TunnelID: "tun-1", MappingID: "pm-1", ClientID: 7,
-		SourceTunnelConn: &tconn{id: "src", conn: r.src},
+		SourceTunnelConn: r.tc("s", r.src),
 		CloudControl:     r.cloud,
 	})
-	r.b.SetTargetConnection(&tconn{id: "dst", conn: r.dst})
+	r.own("s")
+	if withTarget {
+		r.b.SetTargetConnection(r.tc("t", r.dst))
+		r.own("t")
+	}
 	r.b.AddCleanHandler(func() error {
 		r.rec.add(fw.Event{"ev": "Ran", "h": "h1"})
 		return nil
@@ -214,6 +233,19 @@ func (r *bridgeRig) finish() *fw.Trace {
 	r.rec.add(fw.Event{"ev": "CloseRet", "p": "z"})
 	r.runOp("Start", func() error { return r.b.Start() })
 	r.runOp("WaitForTarget", func() error { return r.b.WaitForTarget(50 * time.Millisecond) })
+	r.runOp("NotifyTargetReady", func() error { r.b.NotifyTargetReady(); r.b.IsTargetReady(); return nil })
+	r.runOp("Counters", func() error { r.b.AddBytesSent(0); r.b.AddBytesReceived(0); r.b.GetBytesSent(); r.b.GetRateLimiter(); return nil })
+	r.runOp("CrossNode", func() error { r.b.SetCrossNodeConnection(nil); r.b.GetCrossNodeConnection(); r.b.ReleaseCrossNodeConnection(); return nil })
+	r.runOp("SetSourceConnection:nil", func() error { r.b.SetSourceConnection(nil); return nil })
+	r.runOp("Accessors", func() error {
+		r.b.GetTunnelID()
+		r.b.GetMappingID()
+		r.b.GetClientID()
+		r.b.IsActive()
+		r.b.GetSourceConnectionID()
+		r.b.GetTargetConnectionID()
+		return nil
+	})
 	// goroutines first (the final reporter may still be reporting), then the totals
 	n, top, detail := leaked(r.bl, grace)
 	r.rec.add(fw.Event{"ev": "Quiesce", "moved": r.moved(), "traffic": true, "leaked": n, "top": top, "detail": detail})
@@ -274,7 +306,13 @@ func driveBridge(beh behaviour, seed int64) *fw.Trace {
 	if beh.Free {
 		return driveBridgeFree(beh, seed)
 	}
-	r := newBridgeRig(false, seed)
+	withTarget := true
+	for _, st := range beh.Steps {
+		if st.P == "tg" {
+			withTarget = false // the target connection arrives during the behaviour
+		}
+	}
+	r := newBridgeRigT(false, seed, withTarget)
 	if hooks.dispose {
 		// with the entry hook a closer can be held between "connections closed" and the latch
 		// (goroutines the scheduler does not know pass: Adopt names none at this point)
@@ -310,6 +348,15 @@ func driveBridge(beh behaviour, seed int64) *fw.Trace {
 				return r.unreal(i, "%s is %s, model expects it at the entry of the latch", n, r.where(n))
 			}
 			r.withWatchdog(st.W, func() string { s, _ := r.s.Step(n); return s })
+		case "SetTarget": // the target client's tunnel connection arrives
+			state := r.s.Start("tg", func() any {
+				r.rec.guard("SetTargetConnection", func() { r.b.SetTargetConnection(r.tc("t2", r.dst)) })
+				r.own("t2")
+				return nil
+			})
+			if state != sched.Done {
+				return r.unreal(i, "SetTargetConnection did not return (%s)", r.where("tg"))
+			}
 		case "StartRet", "Wake", "RBegin", "FBegin", "Once", "Exit":
 			// no gate of its own
 		case "Data":
@@ -352,7 +399,25 @@ func driveBridge(beh behaviour, seed int64) *fw.Trace {
 				return r.unreal(i, "%s is %s, model expects it at the end of its Read", n, r.where(n))
 			}
 			r.withWatchdog(st.W && !hooks.dispose, func() string { s, _ := r.s.Step(n); return s })
+		default:
+			if strings.HasPrefix(st.A, "CloseConn:") { // TunnelConnection.Close of one connection, inside Bridge.Close
+				id := st.A[len("CloseConn:"):]
+				stt, at := r.s.State(n)
+				if stt != sched.Parked {
+					r.waitParkedAt(n, "tc.close")
+					stt, at = r.s.State(n)
+				}
+				if stt != sched.Parked || at.Point != "tc.close" || at.Info["id"] != id {
+					return r.unreal(i, "%s is %s %v, model expects it closing connection %s", n, r.where(n), at.Info, id)
+				}
+				r.withWatchdog(st.W && !hooks.dispose, func() string { s, _ := r.s.Step(n); return s })
+				continue
+			}
+			return &fw.Trace{Status: fw.DriverError, Note: "bridge: unknown action " + st.A}
 		case "Close":
+			if st.S {
+				continue // a copier's closeOnce.Do(b.Close): runs by itself after its flush
+			}
 			if st.P == "st" {
 				if !r.waitParkedAt("st", "life") {
 					return r.unreal(i, "Start has not returned (%s)", r.where("st"))
@@ -385,8 +450,6 @@ func driveBridge(beh behaviour, seed int64) *fw.Trace {
 				return r.unreal(i, "%s is %s, model expects the return of UpdatePortMappingStats", n, r.where(n))
 			}
 			r.withWatchdog(st.W, func() string { s, _ := r.s.Step(n); return s })
-		default:
-			return &fw.Trace{Status: fw.DriverError, Note: "bridge: unknown action " + st.A}
 		}
 	}
 	return r.finish()
@@ -395,6 +458,9 @@ func driveBridge(beh behaviour, seed int64) *fw.Trace {
 // driveBridgeFree: data flows both ways, then N closers, the end of one side's input and (sometimes)
 // the parent context's cancellation are released at once; every gate injects a seeded delay.
 func driveBridgeFree(beh behaviour, seed int64) *fw.Trace {
+	if beh.Seed%5 == 4 {
+		return driveBridgeFreeTarget(beh, seed)
+	}
 	r := newBridgeRig(true, seed)
 	rnd := fw.NewRand(seed ^ 0xb41d)
 	var mu sync.Mutex
@@ -525,4 +591,44 @@ func tail(s string, n int) string {
 		return s[len(s)-n:]
 	}
 	return s
+}
+
+// driveBridgeFreeTarget: a bridge still waiting for its target; N closers and the arrival of the target
+// connection (SetTargetConnection) are released at once. Whatever the order, every connection the bridge
+// was handed before the last Close call must have been closed exactly once in the end.
+func driveBridgeFreeTarget(beh behaviour, seed int64) *fw.Trace {
+	r := newBridgeRigT(true, seed, false)
+	rnd := fw.NewRand(seed ^ 0x7a46)
+	var mu sync.Mutex
+	gun := make(chan struct{})
+	var wg sync.WaitGroup
+	for i := 0; i < beh.Closers; i++ {
+		p := fmt.Sprintf("x%d", i+1)
+		wg.Add(1)
+		go func() {
+			defer wg.Done()
+			<-gun
+			jitter(rnd, &mu)
+			r.rec.add(fw.Event{"ev": "CloseCall", "p": p})
+			r.rec.guard("Close", func() { r.b.Close() })
+			r.rec.add(fw.Event{"ev": "CloseRet", "p": p})
+		}()
+	}
+	wg.Add(1)
+	go func() {
+		defer wg.Done()
+		<-gun
+		jitter(rnd, &mu)
+		r.rec.guard("SetTargetConnection", func() { r.b.SetTargetConnection(r.tc("t2", r.dst)) })
+		r.own("t2")
+	}()
+	close(gun)
+	done := make(chan struct{})
+	go func() { wg.Wait(); close(done) }()
+	select {
+	case <-done:
+	case <-time.After(10 * time.Second):
+		return &fw.Trace{Status: fw.DriverError, Note: "bridge: free-running closers did not finish"}
+	}
+	return r.finish()
 }
